@@ -266,8 +266,9 @@ Definition guard_check (m : defmode) : bool :=
   match m with MClip => G_CLIP_CHECK | MMask => G_MASK_CHECK | MFilter => G_FILTER_CHECK && G_FLIST_VIA_URL
              | MPattern => G_PATTERN_CHECK | MMarker => G_MARKER_CHECK end.
 (* G_STATE_ROOTS: no State literal / reset outside convert_doc and resolve_svg_size, so whatever was pushed stays pushed *)
+(* G_SWITCH_AS_GROUP: switch::convert hands the caller's state to the one child it converts (final pass) *)
 Definition guard_push (m : defmode) : bool :=
-  G_STATE_ROOTS &&
+  G_STATE_ROOTS && G_SWITCH_AS_GROUP &&
   match m with MClip => G_CLIP_PUSH | MMask => G_MASK_PUSH | MFilter => G_FILTER_PUSH
              | MPattern => G_PATTERN_PUSH | MMarker => G_MARKER_PUSH end.
 
